@@ -919,6 +919,16 @@ func (x *dexec) doByteAtEnd(op *Op) string {
 // --- Reset --------------------------------------------------------------------------
 
 func (x *dexec) doReset(op *Op) string {
+	if op.X == 2 && x.spec.WindowSize > 0 {
+		// re-Init with ANOTHER configuration: a window between one and two
+		// times the old one, BufferSize left to its default (documented: twice
+		// the window); from here on the model uses the new geometry
+		ws2 := x.ws + int(op.Sel*float64(x.ws))
+		x.spec.WindowSize, x.spec.BufferSize = ws2, 0
+		x.ws, x.bs = ws2, 2*ws2
+		op = &Op{K: "Reset", X: 1, WP: op.WP}
+		x.probe("reinit_other_config")
+	}
 	pn, hang := x.call(x.budget(0), func() {
 		cfg := lz.DecoderConfig{WindowSize: x.spec.WindowSize, BufferSize: x.spec.BufferSize}
 		switch {
